@@ -4,6 +4,8 @@ from . import cli, grounded, accept, provenance
 
 def run(ctx):
     accept.rule_no_extension_only_stable(ctx)
+    from . import splits
+    splits.rule_split_contents(ctx)
     accept.rule_stable_unsat(ctx, 'extension')
     provenance.rule_argument_provenance(ctx)
     provenance.rule_ownership(ctx)
